@@ -102,7 +102,7 @@ class ModelBase:
             if len(tys) == 1 and None not in tys:
                 return nn[0].w(maybe_none=True if has_none else None)
             return AV(union=tuple(sorted(str(p.ty) for p in nn)), maybe_none=True if has_none else None,
-                      anno=norm_text(ann))
+                      anno=norm_text(ann), alts=tuple(nn))
         if isinstance(ann, ast.Subscript):
             head = norm_text(ann.value).split('.')[-1]
             if head == 'Optional':
@@ -591,12 +591,19 @@ class ModelBase:
                 v = st.env.get(test.args[0].id)
                 if tv is not None and tv.isinst and v is not None:
                     names = tv.isinst[1]
+                    keep = v.only('deps', 'origin', 'is_param')
                     if branch and len(names) == 1 and names[0] in ('str', 'int', 'float', 'dict', 'list', 'tuple'):
-                        st.env[test.args[0].id] = v.w(ty=names[0], union=None, maybe_none=None, anno=None)
+                        alt = [a for a in (v.alts or ()) if a.ty == names[0]]
+                        new = alt[0] if alt else AV(ty=names[0])
+                        st.env[test.args[0].id] = new.w(**keep.f)
                     elif not branch and v.union and len(names) == 1 and names[0] in v.union:
                         rest = tuple(u for u in v.union if u != names[0])
-                        st.env[test.args[0].id] = v.w(union=rest if len(rest) > 1 else None,
-                                                      ty=rest[0] if len(rest) == 1 else None)
+                        alts = tuple(a for a in (v.alts or ()) if a.ty != names[0])
+                        if len(rest) == 1:
+                            new = alts[0] if len(alts) == 1 else AV(ty=rest[0])
+                            st.env[test.args[0].id] = new.w(maybe_none=v.maybe_none, **keep.f)
+                        else:
+                            st.env[test.args[0].id] = v.w(union=rest, alts=alts)
                     elif branch and len(names) == 1 and names[0] in interp.p.classes and v.ty != 'obj':
                         st.env[test.args[0].id] = self.symbolic_instance(interp, st, interp.p.classes[names[0]])
             return
